@@ -7,9 +7,11 @@ c=json.load(open('/verif/checks.json'))
 H=[]
 for h in hs.split(','):
     to=h.endswith('!thorough'); h=h.replace('!thorough','')
+    bo=h.endswith('!build'); h=h.replace('!build','')
     n,v=h.rsplit('.',1)
     d={"name":n,"variant":v}
     if to: d["thorough_only"]=True
+    if bo: d["build_only"]=True
     H.append(d)
 c['checks'][pid]={"harnesses":H,"level":level,"engine":engine,"technique":t["technique"],"design_ref":dref,"level_text":t["level_text"],"level_note":t["level_note"]}
 json.dump(c,open('/verif/checks.json','w'),indent=1)
